@@ -55,6 +55,9 @@ def plan(tier, seed):
             if list(k1) == [2, 2] and pb[1] == 0:
                 continue  # b -> a -> ...: link chain, outside the stub's fidelity
             parts.append(Part(H, "pair2", {"k1": list(k1), "c1": [pa[0], pb[0]], "t1": [pa[1], pb[1]]}, ct, 30, ob2))
+    parts.append(Part(H, "linkdir", {}, 300, 30,
+                      "a symlink to a directory at another depth + '..' in link targets: recorded target == physically normalised "
+                      "target; directories differing only in one link target get equal trees iff those are equal"))
     return parts
 
 
